@@ -33,6 +33,18 @@ Theorem C12_enumerator_uses_compiler_value : forall T c cdef,
 Proof. exact enumerator_unchecked. Qed.
 Print Assumptions C12_enumerator_uses_compiler_value.
 
+(* hence the statement "a disagreeing enumerator value raises" is false of the faithful model;
+   the witness (cdef 'enum e { A = 5 }', C source 'enum e { A = 6 }') is replayed on the real
+   code by every run (findings/C12.json, key enumerator-unchecked) *)
+Theorem C12_enumerator_check_refuted :
+  exists T c e, promoted T /\ in_range T c /\ c <> e /\
+                lib_constant KEnumerator T c (Some e) = Some (Ok c).
+Proof.
+  exists s32, 6, 5. split; [left; reflexivity|]. split; [vm_compute; split; discriminate|].
+  split; [discriminate | vm_compute; reflexivity].
+Qed.
+Print Assumptions C12_enumerator_check_refuted.
+
 (* cdef values outside (-2^64, 2^64) are not C literals; gcc truncates them with a warning.
    The model makes no prediction there (finding "const-beyond-64bit" is decided on the
    implementation). *)
